@@ -1011,9 +1011,13 @@ func SexpToGoStructs(
 		// can we avoid making another top by a simple check that we are at depth 0?
 		var err error
 		var checkPtrStruct interface{}
-		if calldepth == 0 {
+		if calldepth == 0 && (factory.TypeCache == nil || reflect.TypeOf(top) == factory.TypeCache) {
+			// the caller's target is the struct this record converts to
 			checkPtrStruct = top
 		} else {
+			// also at depth 0 when the target is of another type (a method
+			// parameter): an interface the struct implements gets a new
+			// object below, anything else fails the type check
 			checkPtrStruct, err = factory.Factory(env, src)
 			if err != nil {
 				return nil, err
